@@ -3507,7 +3507,10 @@ class DecVar(Vars):
                               'before the model is formulated.')
 
         if isinstance(scens, Scen):
-            events = scens.series
+            positions = scens.series
+            if isinstance(positions, Real):
+                positions = [positions]
+            events = self.dro_model.series_scen.index[list(positions)]
         else:
             events = scens
         # events = list(events) if isinstance(events, Iterable) else [events]
